@@ -81,3 +81,31 @@ def netsource_feed(arg):
     sent = obj.raw_pipe_in.sent
     return ([m for b in sent for m in b["adsb_msg"]] + list(obj.local_buffer_adsb_msg),
             [m for b in sent for m in b["commb_msg"]] + list(obj.local_buffer_commb_msg))
+
+
+def decode_step(arg):
+    """one Decode.process_raw() call from a given table state; returns the keys and a few fields of the table"""
+    import sys, types
+    if "zmq" not in sys.modules:
+        try:
+            __import__("zmq")
+        except Exception:
+            sys.modules["zmq"] = types.ModuleType("zmq")
+    from pyModeS.streamer import decode
+    d = object.__new__(decode.Decode)
+    d.acs = {}
+    for k, rec in arg["state"].items():
+        r = {}
+        for kk, v in rec.items():
+            r[int(kk[1:]) if kk.startswith("#") else kk] = v
+        d.acs[k] = r
+    ll = arg.get("latlon")
+    d.lat0, d.lon0 = (ll[0], ll[1]) if ll else (None, None)
+    d.t = 0
+    d.cache_timeout = 60
+    d.dumpto = None
+    d.process_raw([x[0] for x in arg["adsb"]], [x[1] for x in arg["adsb"]], [x[0] for x in arg["commb"]],
+                  [x[1] for x in arg["commb"]], arg["tnow"])
+    return {"keys": sorted(d.acs), "t": {k: v.get("t") for k, v in d.acs.items()},
+            "lat": {k: v.get("lat") for k, v in d.acs.items()}, "lon": {k: v.get("lon") for k, v in d.acs.items()},
+            "live": {k: v.get("live") for k, v in d.acs.items()}, "tpos": {k: v.get("tpos") for k, v in d.acs.items()}}
